@@ -114,6 +114,56 @@ class ResidSpec:
         return self.A @ v + self.Bz @ z + self.C * th + self.E * v[0] ** 2 + self.G * g + self.K * ka
 
 
+# ----------------------------------------------------------------------------- an equation singular at one point
+def _sing(z, zs):
+    return jnp.where(jnp.all(z == zs), jnp.nan, 0.0)
+
+
+class SingODE(jinns.loss.ODE):
+    """the inner user equation plus a term that is NaN exactly at the point zs (sin(t)/t at 0, log of a coordinate..)"""
+    inner: object
+    zs: jax.Array
+
+    def equation(self, t, u, params):
+        return self.inner.equation(t, u, params) + _sing(jnp.reshape(t, (1,)), self.zs)
+
+
+class SingStatio(jinns.loss.PDEStatio):
+    inner: object
+    zs: jax.Array
+
+    def equation(self, x, u, params):
+        return self.inner.equation(x, u, params) + _sing(x, self.zs)
+
+
+class SingNonStatio(jinns.loss.PDENonStatio):
+    inner: object
+    zs: jax.Array
+
+    def equation(self, t, x, u, params):
+        return self.inner.equation(t, x, u, params) + _sing(jnp.concatenate([t, x]), self.zs)
+
+
+def singular_module(inner, kind, zs):
+    cls = {"ode": SingODE, "statio": SingStatio, "nonstatio": SingNonStatio}[kind]
+    return cls(inner=inner, zs=jnp.asarray(zs, dtype=float))
+
+
+# ----------------------------------------------------------------------------- a parameter at the edge of its domain
+class SqrtODE(jinns.loss.ODE):
+    """u' + sqrt(sq) u - theta : finite at sq = 0, but its derivative with respect to sq is infinite there"""
+
+    def equation(self, t, u, params):
+        d = jax.grad(lambda tt: u(tt, params)[0])(jnp.reshape(t, ()))
+        return jnp.reshape(d + jnp.sqrt(params.eq_params["sq"]) * u(t, params)[0] - _theta(params), (1,))
+
+
+class SqrtStatio(jinns.loss.PDEStatio):
+    def equation(self, x, u, params):
+        d = jax.grad(lambda xx: u(xx, params)[0])(x)[-1]
+        return jnp.reshape(d + jnp.sqrt(params.eq_params["sq"]) * u(x, params)[0] - _theta(params), (1,))
+
+
 # ----------------------------------------------------------------------------- system equations
 def _sys_resid(self, z, us, params_dict):
     return self.A @ us + self.Bz @ z + self.C * jnp.sum(params_dict.eq_params["theta"])
